@@ -297,9 +297,12 @@ func c07(c *Ctx) {
 	hi := "http.(*Server).handlePostImport"
 	imp := p.PlainCalls("litefs.(*DB).Import")
 	pctx := "net/http.(*Request).Context(net/http.(*Request).WithContext(p2, litefs.(*Store).PrimaryCtx(p0.store, net/http.(*Request).Context(p2))))"
-	c.ExpectAll("import-ctx/ctx-origin", c.CallArgs(hi, imp, 1), pat(pctx), 1, "db.Import receives the request context wrapped by Store.PrimaryCtx", "losing the lease must cancel a running import")
-	c.Guarded("import-ctx/not-expired", hi, imp, gs(GP("(context.Context.Err("+pctx+") == nil)", true)), 1, "db.Import runs only if the primary context is not already done", "on a replica primaryCh is closed, so the wrapped context is done: the endpoint refuses with 503")
-	c.Guarded("import-ctx/create-after-check", hi, p.PlainCalls("litefs.(*Store).CreateDBIfNotExists"), gs(GP("(context.Context.Err("+pctx+") == nil)", true)), 1, "the database is created only after the primary-context check", "an import refused on a replica must leave nothing behind")
+	// (import-ctx/ctx-origin - "db.Import receives the primary context" - was withdrawn after F55: the import re-checks the role itself once it
+	// holds the lock, so the context only shortens the wait; two independent seeds that pass the plain request context are now behaviour-preserving.)
+	_ = pctx
+	pctxErr := G(`^\(context\.Context\.Err\(.*litefs\.\(\*Store\)\.PrimaryCtx\(p0\.store, net/http\.\(\*Request\)\.Context\(p2\)\).*\) == nil\)$|^\(nil == context\.Context\.Err\(.*litefs\.\(\*Store\)\.PrimaryCtx\(p0\.store, net/http\.\(\*Request\)\.Context\(p2\)\).*\)\)$`, true)
+	c.Guarded("import-ctx/not-expired", hi, imp, gs(pctxErr), 1, "db.Import runs only if the primary context is not already done", "on a replica primaryCh is closed, so the wrapped context is done: the endpoint refuses with 503")
+	c.Guarded("import-ctx/create-after-check", hi, p.PlainCalls("litefs.(*Store).CreateDBIfNotExists"), gs(pctxErr), 1, "the database is created only after the primary-context check", "an import refused on a replica must leave nothing behind")
 
 	// ---- modes ----
 	modeWrite := func(val string) IM {
